@@ -172,9 +172,7 @@ func execC07(b []byte) vx.Verdict {
 			}
 			hcut = func() { c.Close() }
 		default:
-			h := http.Header{}
-			h.Set("origin", "http://127.0.0.1")
-			c, _, err := websocket.DefaultDialer.Dial("ws://"+addr+"/", h)
+			c, _, err := websocket.DefaultDialer.Dial("ws://"+addr+"/", http.Header{})
 			if err != nil {
 				return vx.Inconclusive("ws dial: %v", err)
 			}
